@@ -98,3 +98,33 @@ Proof.
   clear - Hin. induction Hin as [|op r H Hr IH]; simpl; constructor; [|exact IH].
   unfold wrap, ops_within_m. simpl. constructor; [exact H|constructor].
 Qed.
+
+(* the model never drops an admitted transaction without one of the three excuses (monitor mustrun holds of every step) *)
+Lemma deliver_must_run e s t o :
+  snd (deliver e s t o) <> RefundFail ->
+  must_run_ok e t o (view_of s t) (code_of (snd (deliver e s t o))) = true.
+Proof.
+  unfold must_run_ok, view_of, deliver. cbn [v_sbal v_nonce v_bgas].
+  set (w := admit_reason e (aget 0 (s_bal s) (t_from t)) (aget None (s_nonce s) (t_from t)) (s_bgas s) t).
+  set (bal := aget 0 (s_bal s) (t_from t)).
+  destruct (w =? 2) eqn:E2.
+  { apply Z.eqb_eq in E2. rewrite E2. intros _. reflexivity. }
+  destruct (w =? 0) eqn:E0; simpl negb; cbv iota; [|intros _; reflexivity].
+  destruct (t_gas t <? t_intr t) eqn:E1; [intros _; reflexivity|]. simpl orb.
+  set (failed := o_failed o || (bal - eff_price e t * t_gas t <? t_value t)).
+  destruct (negb failed && t_blocked t && (0 <? t_value t)) eqn:E3; [intros _; reflexivity|]. simpl orb.
+  set (gu := final_gas_used e t (temp_gas_used t o)).
+  destruct ((t_gas t - gu) * eff_price e t <? 0); [simpl; intro H; exfalso; apply H; reflexivity|].
+  cbn [s_coll].
+  destruct (s_coll s + eff_price e t * t_gas t <? (t_gas t - gu) * eff_price e t);
+    [simpl; intro H; exfalso; apply H; reflexivity|].
+  destruct ((0 <=? e_blim e) && (e_blim e <? s_bgas s + gu)); simpl; intros _; reflexivity.
+Qed.
+
+Lemma deliver_must_run_ok e s t o :
+  env_ok e = true -> oracle_ok t o = true -> state_ok s ->
+  must_run_ok e t o (view_of s t) (code_of (snd (deliver e s t o))) = true.
+Proof.
+  intros He Ho Hs. apply deliver_must_run.
+  pose proof (deliver_spec e s t o He Ho Hs) as H. cbv zeta in H. apply H.
+Qed.
